@@ -79,7 +79,7 @@ def concrete(last: list, nets: dict):
     if k == "New":
         return ["New", last[1]], {"op": "New", "n": last[1]}
     if k == "Edit":
-        return ["Edit", last[1]], {"op": "Edit", "n": last[1]}
+        return ["Edit", last[1]] + list(last[2:]), {"op": "Edit", "n": last[1]}       # (an optional third item names the kind of edit)
     if k == "Render":
         return ["Render", last[1]], {"op": "Render", "n": last[1]}
     if k == "Parse":
@@ -161,6 +161,13 @@ def main(ctx: Ctx) -> int:
                                 ["Render", 1], ["Render", 2], ["Render", 1]]))
         scenarios.append((fam, [["New", 2], ["Parse", 2, files[fam]["2"]["krome"], False], ["Render", 2], ["New", 1], ["Parse", 1, files[fam]["1"]["krome"], False],
                                 ["Render", 1], ["Render", 2]]))
+        # a network rendered while it is still EMPTY, then filled and rendered again (the first rendering must leave nothing behind in it)
+        scenarios.append((fam, [["New", 1], ["Render", 1], ["Parse", 1, files[fam]["1"]["krome"], False], ["Render", 1]]))
+        # network 1 edits one of its option tables IN PLACE (net.shielding[...] = ...) while network 2 exists: 2 renders as it does alone
+        scenarios.append((fam, [["New", 1], ["Parse", 1, files[fam]["1"]["krome"], False], ["New", 2], ["Parse", 2, files[fam]["2"]["krome"], False],
+                                ["Edit", 1, "shield"], ["Render", 2], ["Render", 1]]))
+        scenarios.append((fam, [["New", 2], ["New", 1], ["Parse", 1, files[fam]["1"]["krome"], False], ["Edit", 1, "shield"],
+                                ["Parse", 2, files[fam]["2"]["krome"], False], ["Render", 2]]))
     cov["spec_behaviours_replayed"] = len(scenarios)
 
     jobs = []
